@@ -13,7 +13,7 @@ BOUNDS = ("Inductive step of the bookkeeping invariant volume = round(sum of con
           "create_solution (pure and container solvent), create_solution_from (pure and container solvent), plate "
           "transfer / remove / fill_to - the invariant holds for every returned object. Observers on a symbolic state: "
           "get_volume in all 10 volume prefixes, get_concentration in 16 unit spellings (M, m, all num/den pairs, "
-          "percent forms), Plate.get_volumes (total and per substance list), get_moles, get_volume, get_substances, "
+          "percent forms; plus delta-model precision cells for mM/uM/nM/ug/L/umol/L on a concrete dilute container), Plate.get_volumes (total and per substance list), get_moles, get_volume, get_substances, "
           "with output rounding modelled as |reported - truth| <= 0.5*10^-digits. Lite rounding model.")
 OUTSIDE = "IEEE rounding; histories are covered by induction from the single step, not enumerated; dataframe/HTML renderings."
 ASSUMPTIONS = ["the inductive hypothesis: the pre-state satisfies the invariant (a counterexample from an unreachable "
@@ -41,6 +41,11 @@ def cells(tier, seed):
                 continue
             out.append({'id': f"observers/get_concentration/{cu.replace('/', '_')}/{solute}", 'fn': 'h_get_concentration',
                         'round': 'lite', 'max_paths': 50, 'params': {'cu': cu, 'solute': solute}})
+    # reported precision of get_concentration in units with a small multiplier: delta rounding model on a concrete,
+    # dilute container (only the rounding errors are symbolic -> linear arithmetic)
+    for cu in ['mM', 'uM', 'nM', 'ug/L', 'umol/L', 'M']:
+        out.append({'id': f"observers/get_concentration-precision/{cu.replace('/', '_')}", 'fn': 'h_conc_precision',
+                    'round': 'delta', 'max_paths': 20, 'params': {'cu': cu}})
     for obs in ['get_volumes', 'get_volumes_subst', 'get_moles', 'get_volume', 'get_substances']:
         for unit in (['uL', 'mL'] if obs != 'get_moles' else ['umol', 'mmol']):
             out.append({'id': f"observers/plate/{obs}/{unit}", 'fn': 'h_plate_observers', 'round': 'lite',
@@ -167,6 +172,10 @@ def _conc_oracle(lib, c, solute, cu):
             scale = 100 * PREFIX[pd] / PREFIX[pn]
         else:
             scale = Fr(100)
+    elif '/' not in cu and cu[-1] in 'Mm':
+        # prefixed molar / molal shorthand: 'mM' = mmol/L, 'um' = umol/kg
+        n, d = 'mol', ('L' if cu[-1] == 'M' else 'g')
+        scale = (Fr(1) if cu[-1] == 'M' else Fr(1000)) / PREFIX[cu[:-1]]
     else:
         un, ud = cu.split('/')
         pn, n = split_unit(un)
@@ -188,6 +197,25 @@ def h_get_concentration(h):
     h.require('get_concentration', h.eq(got * den, num * scale, h.rs(2 * h.ulp * den + 4 * h.ulp * scale * 10**4)),
               region=p['cu'], detail=f"get_concentration({p['solute']}, '{p['cu']}') equals amount/total by definition")
     h.outcome = 'ok'
+
+
+def h_conc_precision(h):
+    """the reported concentration equals the value computed from the contents rounded to the internal precision *in the
+    requested unit*: |reported - truth| <= 10^-p"""
+    cu = h.p['cu']
+    lib = Lib(h, ['water', 'NaCl'])
+    c = h.env.Container('c')
+    c.contents[lib['water']] = h.const('55508434.3813')         # ~1 L
+    c.contents[lib['NaCl']] = h.const('0.1234567891')            # ~123.46 nM
+    set_volume(h, lib, c)
+    num, den, scale = _conc_oracle(lib, c, lib['NaCl'], cu)
+    got = c.get_concentration(lib['NaCl'], cu)
+    h.outcome = 'ok'
+    # one rounding of the result, plus the denominator (get_volume in the denominator's unit) being itself rounded to
+    # the internal precision: relative error ulp / denominator
+    truth = num * scale / den
+    h.require('get_concentration:precision', h.eq(got, truth, h.ulp * 2 * (1 + truth / den)), region=cu,
+              detail=f"get_concentration(NaCl, '{cu}') is off by more than the internal precision in that unit")
 
 
 def h_plate_observers(h):
